@@ -120,7 +120,9 @@ pub trait MapValidVec<T: IsNone>: Vec1View<T> {
         if len == 0 {
             return O::empty();
         } else if len == 1 {
-            return O::full(len, (1.).cast());
+            // a single null element has no rank
+            let v = unsafe { self.uget(0) };
+            return O::full(len, if v.is_none() { OT::none() } else { (1.).cast() });
         }
         // argsort at first
         let mut idx_sorted: Vec<_> = (0..len).collect_trusted_to_vec();
